@@ -9,6 +9,7 @@ def configs(tier):
         ('element forms 3occ x 1slot (history before/after demotion)', dict(family='one_level', fam_kw=dict(occ=3, slots=1, attrs=0, text=False, noise=False, pool=2))),
         ('text vs CDATA, contents, attribute values 3occ', dict(family='one_level', fam_kw=dict(occ=3, slots=1, attrs=1, text=True, noise=False, pool=1, leaf_form=False, p_form=False))),
         ('comments/PI/decl/doctype 2occ', dict(family='one_level', fam_kw=dict(occ=2, slots=1, attrs=0, text=False, noise=True, pool=1, leaf_form=False, p_form=True))),
+        ('element forms with colliding field names 3occ x 2slots {Foo,foo}', dict(family='one_level', fam_kw=dict(occ=3, slots=2, attrs=0, text=False, noise=False, leaf_form=False, names=['Foo', 'foo']))),
         ('two documents: root forms + text', dict(family='root_level', fam_kw=dict(docs=2, slots=2, attrs=0, text=True, pool=2))),
         ('serde_xml_rs preset, sorted: forms + text 2occ', dict(family='one_level', fam_kw=dict(occ=2, slots=1, attrs=1, text=True, noise=False, pool=2), options=[{'preset': 'serde_xml_rs', 'sort': 'XmlName'}])),
     ]
